@@ -71,7 +71,7 @@ def classify(msg):
     return "other", False
 
 
-def run_verus(path, rlimit=None, seed=None, timeout=1800, extra=None):
+def run_verus(path, rlimit=30, seed=None, timeout=1800, extra=None):
     cmd = ["verus", path, "--output-json", "--time", "--multiple-errors", "8", "--triggers-mode", "silent"]
     if rlimit:
         cmd += ["--rlimit", str(rlimit)]
